@@ -496,6 +496,16 @@ Proc(e) ==
       [] e.ev = "hash" ->
             \* C12: the crate's own placement hash of a table key equals the documented one
             [base EXCEPT !.fails = IF e.h30 = TrKH[e.k] THEN {} ELSE {"C12.placement"}]
+      [] e.ev = "bfs_load" ->
+            \* breadth-first exploration of the real state graph: the files of an already visited state
+            \* were restored; the model continues from what the decoder reads in them
+            LET S == FromJson(e.st)
+                D == Derive(S)
+            IN [base EXCEPT !.mem = Set(mem, m, IF ChainsOKD(S, D) /\ ValRefsOKD(S, D) THEN AbsMapD(S, D) ELSE Unknown),
+                            !.meta = Set(meta, m, [kt |-> e.kt, n |-> e.n, dir |-> e.dir, foreign |-> FALSE, open |-> FALSE]),
+                            !.st = Set(st, m, S), !.last = Set(last, m, S),
+                            !.aux = [aux EXCEPT !.dur = Set(aux.dur, m, TRUE), !.synced = Set(aux.synced, m, FALSE),
+                                                !.peak = Set(aux.peak, m, NoPeak), !.since = Set(aux.since, m, <<0, 0>>)]]
       [] e.ev = "load" ->
             \* a released image with known contents is installed (golden image, C12)
             [base EXCEPT !.mem = Set(mem, m, ContentMap(e.content)),
